@@ -12,6 +12,8 @@ CONSTANTS
   MaxRetries = 3
   FIX_TRYREMOVE_LOADING = TRUE
   FIX_ADD_CLOSED = TRUE
+  CloseDeadline = FALSE
+  BOUND_LOADS = FALSE
   Loose = TRUE
   FIX_TRYREMOVE_ERR = TRUE
 INVARIANT TypeOK
